@@ -1,7 +1,433 @@
-(* C18 proofs *)
-From Coq Require Import List NArith ZArith Bool Lia.
+(* C18 proofs: what sorted() returns, for any sorter state; tween and deriver nesting. *)
+From Coq Require Import List NArith ZArith Bool Lia Permutation.
 Import ListNotations.
 Require Import Verif.Lib.Wire Verif.Gen.Facts_C18 Verif.Model.C18.
+Require Import Verif.Proofs.C18_kahn Verif.Proofs.C18_build.
+
+(* ---------- precedes *)
+Lemma precedes_intro p q a b : In a p -> precedes (p ++ b :: q) a b = true.
+Proof.
+  induction p as [|x p IH]; intros H; [destruct H|]. simpl.
+  destruct (text_eqb_spec x a) as [->|Hne].
+  - apply mem_text_In. apply in_or_app. right. left. reflexivity.
+  - destruct H as [H|H]; [contradiction|auto].
+Qed.
+
+Lemma precedes_filter f l a b :
+  precedes l a b = true -> f a = true -> f b = true -> precedes (filter f l) a b = true.
+Proof.
+  intros H Ha Hb. induction l as [|x l IH]; simpl in *; [discriminate|].
+  destruct (text_eqb_spec x a) as [->|Hne].
+  - rewrite Ha. simpl. rewrite text_eqb_refl. apply mem_text_In. apply filter_In. split; [|exact Hb].
+    apply mem_text_In. exact H.
+  - destruct (f x); simpl; [|auto]. apply text_eqb_neq in Hne. rewrite Hne. auto.
+Qed.
+
+Lemma precedes_In l a b : precedes l a b = true -> In a l /\ In b l.
+Proof.
+  induction l as [|x l IH]; simpl; [discriminate|].
+  destruct (text_eqb_spec x a) as [->|Hne].
+  - intros H. apply mem_text_In in H. auto.
+  - intros H. destruct (IH H). auto.
+Qed.
+
+(* with no duplicates, precedes is irreflexive and asymmetric *)
+Lemma precedes_irrefl l a : NoDup l -> precedes l a a = false.
+Proof.
+  induction l as [|x l IH]; intros Hnd; simpl; [reflexivity|]. inversion Hnd as [|? ? Hnot Hnd']; subst.
+  destruct (text_eqb_spec x a) as [->|Hne]; [apply mem_text_false; exact Hnot|auto].
+Qed.
+
+Lemma precedes_trans l a b c : NoDup l -> precedes l a b = true -> precedes l b c = true -> precedes l a c = true.
+Proof.
+  induction l as [|x l IH]; intros Hnd; simpl; [discriminate|]. inversion Hnd as [|? ? Hnot Hnd']; subst.
+  destruct (text_eqb_spec x a) as [->|Hne].
+  - intros Hab. destruct (text_eqb_spec a b) as [->|Hne2].
+    + apply mem_text_In in Hab. contradiction.
+    + intros Hbc. apply precedes_In in Hbc. apply mem_text_In. tauto.
+  - intros Hab. destruct (text_eqb_spec x b) as [->|Hne2].
+    + apply precedes_In in Hab. tauto.
+    + auto.
+Qed.
+
+Lemma before_ok_precedes arcs em a b :
+  before_ok arcs em -> In (a, b) arcs -> In b em -> precedes (rev em) a b = true.
+Proof.
+  intros Ho Harc Hb. apply in_split in Hb. destruct Hb as (l1 & l2 & ->).
+  pose proof (Ho l1 b l2 eq_refl a Harc) as Ha.
+  rewrite rev_app_distr. simpl. rewrite <- app_assoc. simpl.
+  apply precedes_intro. apply in_rev in Ha. exact Ha.
+Qed.
+
+(* ---------- sorted() on an arbitrary sorter state *)
+Definition miss_before (s : sorter) : list node := missing (req_before s) (has_dep (all_names s) (name2before s)).
+Definition miss_after (s : sorter) : list node := missing (req_after s) (has_dep (all_names s) (name2after s)).
+
+Lemma nonempty_false {A} (l : list A) : nonempty l = false -> l = [].
+Proof. destruct l; [reflexivity|discriminate]. Qed.
+Lemma nonempty_true {A} (l : list A) : nonempty l = true -> l <> [].
+Proof. destruct l; [discriminate|intros _ H; discriminate]. Qed.
+
+Definition sorted_post (s : sorter) (o : outcome) : Prop :=
+  match o with
+  | Sorted l =>
+      miss_before s = [] /\ miss_after s = [] /\
+      exists full,                                   (* sorted_names, sentinels included *)
+        NoDup full /\ (forall n, In n full <-> In n (all_names s)) /\
+        (forall a b, In (a, b) (parcs s) -> precedes full a b = true) /\
+        l = map (fun n => (n, val_of s n)) (filter (fun n => mem_text n (names s)) full)
+  | Cyclic l =>
+      miss_before s = [] /\ miss_after s = [] /\ l <> [] /\
+      forall k, In k (map fst l) ->
+        In k (all_names s) /\ exists a, In (a, k) (parcs s) /\ In a (map fst l)
+  | UnsatBefore l => l = miss_before s /\ l <> []
+  | UnsatAfter l => miss_before s = [] /\ l = miss_after s /\ l <> []
+  | Internal => False
+  end.
+
+Lemma sorted_state s : sorted_post s (sorted s).
+Proof.
+  unfold sorted. destruct (build s) as [g roots] eqn:Eb.
+  destruct (build_cinv s g roots Eb) as (HI & Hnodes & HarcsK).
+  fold (miss_before s). destruct (nonempty (miss_before s)) eqn:Emb.
+  { simpl. split; [reflexivity|apply nonempty_true; exact Emb]. }
+  fold (miss_after s). destruct (nonempty (miss_after s)) eqn:Ema.
+  { simpl. split; [apply nonempty_false; exact Emb|]. split; [reflexivity|apply nonempty_true; exact Ema]. }
+  apply nonempty_false in Emb, Ema.
+  destruct (loop_inv (parcs s) (keys g) HarcsK (length g) roots g [] HI (le_n _)) as (g' & em & Hl & HI').
+  rewrite Hl. destruct (nonempty g') eqn:Eg.
+  - (* cycle *)
+    cbn [sorted_post]. split; [exact Emb|]. split; [exact Ema|].
+    split.
+    + destruct g'; [discriminate|]. simpl. discriminate.
+    + intros k Hk.
+      assert (Hk' : In k (keys g')) by (unfold keys; rewrite map_map in Hk; exact Hk).
+      split.
+      * apply Hnodes. apply (c_keys _ _ _ _ _ HI') in Hk'. tauto.
+      * destruct (exit_certificate (parcs s) (keys g) HarcsK g' em HI' k Hk') as (a & Ha & Hak).
+        exists a. split; [exact Ha|]. rewrite map_map. exact Hak.
+  - (* sorted *)
+    apply nonempty_false in Eg. simpl. split; [exact Emb|]. split; [exact Ema|].
+    exists (rev em). split; [|split; [|split]].
+    + apply NoDup_rev. apply (c_em_nodup _ _ _ _ _ HI').
+    + intros n. rewrite <- in_rev. split.
+      * intros H. apply Hnodes. apply (c_em_nodes _ _ _ _ _ HI'). exact H.
+      * intros H. apply Hnodes in H. eapply exit_all_emitted; eauto.
+    + intros a b Harc. eapply before_ok_precedes; [apply (c_order _ _ _ _ _ HI')|exact Harc|].
+      eapply exit_all_emitted; eauto. apply (HarcsK a b Harc).
+    + reflexivity.
+Qed.
+
+(* ---------- corollaries on an arbitrary state *)
+Lemma map_fst_pairs (v : node -> N) l : map fst (map (fun n => (n, v n)) l) = l.
+Proof. rewrite map_map. simpl. apply map_id. Qed.
+
+(* every declared name exactly once, with its current value *)
+Lemma sorted_perm_state s l :
+  sorted s = Sorted l -> NoDup (names s) ->
+  Permutation (map fst l) (names s) /\ (forall n v, In (n, v) l -> v = val_of s n).
+Proof.
+  intros E Hnd. pose proof (sorted_state s) as H. rewrite E in H.
+  destruct H as (_ & _ & full & Hfnd & Hfull & _ & ->). split.
+  - rewrite map_fst_pairs. apply NoDup_Permutation; [apply NoDup_filter; exact Hfnd|exact Hnd|].
+    intros n. rewrite filter_In, mem_text_In, Hfull. unfold all_names. simpl. tauto.
+  - intros n v Hin. apply in_map_iff in Hin. destruct Hin as (m & Hm & _). congruence.
+Qed.
+
+(* every arc whose ends are both present is respected -- in the full order
+   (sentinels included) and therefore in the returned order of the names *)
+Lemma sorted_respects_state s l :
+  sorted s = Sorted l ->
+  exists full,
+    NoDup full /\ (forall n, In n full <-> In n (all_names s)) /\
+    map fst l = filter (fun n => mem_text n (names s)) full /\
+    (forall a b, In (a, b) (all_order s) -> In a (all_names s) -> In b (all_names s) ->
+                 precedes full a b = true) /\
+    (forall a b, In (a, b) (order s) -> In a (names s) -> In b (names s) ->
+                 precedes (map fst l) a b = true).
+Proof.
+  intros E. pose proof (sorted_state s) as H. rewrite E in H.
+  destruct H as (_ & _ & full & Hfnd & Hfull & Hprec & ->).
+  exists full. split; [exact Hfnd|]. split; [exact Hfull|]. split; [apply map_fst_pairs|].
+  assert (Hp : forall a b, In (a, b) (all_order s) -> In a (all_names s) -> In b (all_names s) ->
+                           precedes full a b = true).
+  { intros a b Hab Ha Hb. apply Hprec. apply filter_In. split; [exact Hab|].
+    unfold arc_present. simpl fst. simpl snd. apply andb_true_iff. split; apply mem_text_In; assumption. }
+  split; [exact Hp|].
+  intros a b Hab Ha Hb. rewrite map_fst_pairs. apply precedes_filter.
+  - apply Hp; [right; exact Hab| |]; unfold all_names; simpl; tauto.
+  - apply mem_text_In. exact Ha.
+  - apply mem_text_In. exact Hb.
+Qed.
+
+(* cycles *)
+Inductive path (arcs : list arc) : node -> node -> Prop :=
+| path_one a b : In (a, b) arcs -> path arcs a b
+| path_cons a b c : In (a, b) arcs -> path arcs b c -> path arcs a c.
+
+(* <= : a cycle among the present constraints is never ordered *)
+Lemma sorted_acyclic_state s l : sorted s = Sorted l -> forall a, ~ path (parcs s) a a.
+Proof.
+  intros E a Hp. pose proof (sorted_state s) as H. rewrite E in H.
+  destruct H as (_ & _ & full & Hfnd & _ & Hprec & _).
+  assert (Hall : forall x y, path (parcs s) x y -> precedes full x y = true).
+  { intros x y P. induction P as [x y H|x y z H P IH]; [apply Hprec; exact H|].
+    eapply precedes_trans; [exact Hfnd|apply Hprec; exact H|exact IH]. }
+  pose proof (Hall a a Hp) as H1. rewrite precedes_irrefl in H1 by exact Hfnd. discriminate.
+Qed.
+
+Lemma cyclic_error_state s :
+  miss_before s = [] -> miss_after s = [] -> (exists a, path (parcs s) a a) ->
+  exists l, sorted s = Cyclic l.
+Proof.
+  intros Hb Ha (a & Hp). pose proof (sorted_state s) as H.
+  destruct (sorted s) as [l|l|l|l|] eqn:E; simpl in H.
+  - exfalso. eapply sorted_acyclic_state; eauto.
+  - destruct H as (-> & H). congruence.
+  - destruct H as (_ & -> & H). congruence.
+  - eauto.
+  - contradiction.
+Qed.
+
+(* => (certificate form): the reported dictionary is a non-empty set of nodes each of
+   which has a predecessor in the set along a present constraint *)
+Lemma cyclic_certificate_state s l :
+  sorted s = Cyclic l ->
+  l <> [] /\ forall k, In k (map fst l) -> exists a, In (a, k) (parcs s) /\ In a (map fst l).
+Proof.
+  intros E. pose proof (sorted_state s) as H. rewrite E in H. destruct H as (_ & _ & Hne & H).
+  split; [exact Hne|]. intros k Hk. apply (H k Hk).
+Qed.
+
+(* unsatisfied dependencies: exactly the requirements of the state *)
+Lemma In_missing n req has : In n (missing req has) <-> In n req /\ ~ In n has.
+Proof. unfold missing. rewrite filter_In, negb_true_iff, mem_text_false. reflexivity. Qed.
+
+Lemma In_has_dep n nm d :
+  In n (has_dep nm d) <-> exists alts, In (n, alts) d /\ exists a, In a alts /\ In a nm.
+Proof.
+  unfold has_dep. rewrite in_map_iff. split.
+  - intros ([k alts] & <- & H). apply filter_In in H. destruct H as (H1 & H2). simpl in *.
+    apply existsb_exists in H2. destruct H2 as (a & Ha & Hm). apply mem_text_In in Hm. eauto.
+  - intros (alts & Hin & a & Ha & Hm). exists (n, alts). split; [reflexivity|].
+    apply filter_In. split; [exact Hin|]. simpl. apply existsb_exists. exists a.
+    split; [exact Ha|apply mem_text_In; exact Hm].
+Qed.
+
+Lemma unsat_error_state s :
+  ((exists l, sorted s = UnsatBefore l) <-> miss_before s <> []) /\
+  ((exists l, sorted s = UnsatAfter l) <-> miss_before s = [] /\ miss_after s <> []) /\
+  (forall l, sorted s = UnsatBefore l -> l = miss_before s) /\
+  (forall l, sorted s = UnsatAfter l -> l = miss_after s).
+Proof.
+  pose proof (sorted_state s) as HS.
+  destruct (sorted s) as [l|l|l|l|] eqn:E; simpl in HS; [| | | |contradiction];
+    repeat split; intros;
+    repeat match goal with
+           | H : exists _, _ |- _ => destruct H
+           | H : _ /\ _ |- _ => destruct H
+           end; try discriminate; try congruence; eauto.
+Qed.
+
+Lemma sorted_never_internal s : sorted s <> Internal.
+Proof. intros E. pose proof (sorted_state s) as H. rewrite E in H. exact H. Qed.
+
+(* ---------- tweens and derivers: nesting *)
+Definition wrap_right (use : list (node * N)) (h : handler) : handler :=
+  fold_right (fun nf h => Wrap (fst nf) (snd nf) h) h use.
+
+Lemma trace_wrap_right use :
+  trace (wrap_right use Base) =
+  map (fun nf => Enter (fst nf)) use ++ [Call] ++ map (fun nf => Exit (fst nf)) (rev use).
+Proof.
+  induction use as [|[n f] use IH]; simpl; [reflexivity|].
+  rewrite IH. rewrite map_app. simpl. rewrite <- !app_assoc. reflexivity.
+Qed.
+
+Lemma wrap_all_right use h : wrap_all use h = wrap_right use h.
+Proof.
+  unfold wrap_all, wrap_right.
+  assert (E : tw_use_reversed = true) by reflexivity. rewrite E.
+  rewrite <- fold_left_rev_right. rewrite rev_involutive. reflexivity.
+Qed.
+
+(* the first tween of the order in use is outermost: entered first, left last;
+   an explicit list replaces the implicit order *)
+Lemma tweens_nesting t h :
+  tweens_call t Base = inr h ->
+  exists use,
+    (tw_explicit t <> [] -> use = tw_explicit t) /\
+    (tw_explicit t = [] -> implicit t = Sorted use) /\
+    h = wrap_right use Base /\
+    trace h = map (fun nf => Enter (fst nf)) use ++ [Call] ++ map (fun nf => Exit (fst nf)) (rev use).
+Proof.
+  unfold tweens_call. destruct (tw_explicit t) as [|x ex] eqn:Ex; simpl.
+  - destruct (implicit t) as [use| | | |] eqn:Ei; try discriminate.
+    intros H. injection H as <-. exists use. rewrite wrap_all_right.
+    split; [congruence|]. split; [auto|]. split; [reflexivity|apply trace_wrap_right].
+  - intros H. injection H as <-. exists (x :: ex). rewrite wrap_all_right.
+    split; [auto|]. split; [discriminate|]. split; [reflexivity|apply trace_wrap_right].
+Qed.
+
+Lemma tweens_error t e : tweens_call t Base = inl e -> tw_explicit t = [] /\ implicit t = e /\ forall l, e <> Sorted l.
+Proof.
+  unfold tweens_call. destruct (tw_explicit t) as [|x ex]; simpl; [|discriminate].
+  destruct (implicit t); intros H; try discriminate; injection H as <-; repeat split; intros; discriminate.
+Qed.
+
+Lemma derivers_nesting s h :
+  apply_view_derivers s Base = inr h ->
+  exists ds, sorted s = Sorted ds /\
+    let all := map (fun n => (n, 0%N)) dv_outer ++ ds in
+    h = wrap_right all Base /\
+    trace h = map (fun nf => Enter (fst nf)) all ++ [Call] ++ map (fun nf => Exit (fst nf)) (rev all).
+Proof.
+  unfold apply_view_derivers. destruct (sorted s) as [ds| | | |] eqn:E; try discriminate.
+  remember (map (fun n => (n, 0%N)) dv_outer) as outer eqn:Eo.
+  assert (Er : dv_reversed = true) by reflexivity. rewrite Er.
+  intros H. injection H as <-. exists ds. split; [reflexivity|].
+  assert (Ew : forall all, fold_left (fun h nf => Wrap (fst nf) (snd nf) h) (rev all) Base = wrap_right all Base).
+  { intros all. unfold wrap_right. rewrite <- fold_left_rev_right, rev_involutive. reflexivity. }
+  cbv zeta. rewrite Ew. split; [reflexivity|apply trace_wrap_right].
+Qed.
+
+(* the default pipeline, from the regenerated declarations of add_default_view_derivers *)
+Definition t_secured_view : text := [115;101;99;117;114;101;100;95;118;105;101;119]%N.
+Definition t_rendered_view : text := [114;101;110;100;101;114;101;100;95;118;105;101;119]%N.
+Definition t_mapped_view : text := [109;97;112;112;101;100;95;118;105;101;119]%N.
+
+Definition default_deriver_order : list node :=
+  match sorted default_derivers with Sorted l => map fst l | _ => [] end.
+
+Lemma default_derivers_order :
+  exists mid, sorted default_derivers = Sorted (map (fun n => (n, 0%N)) (t_secured_view :: mid ++ [t_rendered_view; t_mapped_view])).
+Proof. eexists (_ :: _ :: _ :: _ :: nil). vm_compute. reflexivity. Qed.
+
+Lemma default_derivers_secured_first :
+  exists rest, default_deriver_order = t_secured_view :: rest /\ ~ In t_secured_view rest.
+Proof.
+  eexists. split; [vm_compute; reflexivity|].
+  intros H. repeat (destruct H as [H|H]; [discriminate H|]). exact H.
+Qed.
+
+(* ---------- non-vacuity *)
+Definition tx (c : N) : text := [c].
+Example ex_sorted :
+  sorted (add (tx 99) 3 (HOne (tx 97)) HNone (add (tx 97) 1 HNone (HOne (tx 98)) (add (tx 98) 2 HNone HNone (new_sorter cfg_plain))))
+  = Sorted [(tx 97, 1%N); (tx 99, 3%N); (tx 98, 2%N)].
+Proof. vm_compute. reflexivity. Qed.
+
+Example ex_cyclic :
+  exists l, sorted (add (tx 98) 2 (HOne (tx 97)) HNone (add (tx 97) 1 (HOne (tx 98)) HNone (new_sorter cfg_plain))) = Cyclic l
+            /\ map fst l = [tx 97; tx 98].
+Proof. eexists. vm_compute. split; reflexivity. Qed.
+
+(* the repaired tree reports the own unsatisfied constraint of c although a names c (DESIGN 5 item 11) *)
+Example ex_unsat_own :
+  sorted (add (tx 97) 2 HNone (HOne (tx 99)) (add (tx 99) 1 (HOne (tx 102)) HNone (new_sorter cfg_plain)))
+  = UnsatAfter [tx 99].
+Proof. vm_compute. reflexivity. Qed.
+
+Example ex_tweens_explicit_wins :
+  let t := add_explicit (tx 98) 2 (add_explicit (tx 97) 1 (add_implicit (tx 97) 1 (HOne (tx 98)) HNone
+             (add_implicit (tx 98) 2 HNone HNone new_tweens))) in
+  match tweens_call t Base with
+  | inr h => trace h = [Enter (tx 97); Enter (tx 98); Call; Exit (tx 98); Exit (tx 97)]
+  | inl _ => False
+  end.
+Proof. vm_compute. reflexivity. Qed.
+
+(* an empty iterable of alternatives is unsatisfiable while declared, and is withdrawn with the item *)
+Example empty_alternatives_withdrawn :
+  let ops := [OAdd (tx 97) 1 (HMany []) HNone; ORemove (tx 97)] in
+  run_ops (new_sorter cfg_plain) ops = [RSorted (UnsatAfter [tx 97]); RSorted (Sorted [])]
+  /\ judge cfg_plain (decls_of cfg_plain ops) (Sorted []) = true.
+Proof. vm_compute. repeat split; reflexivity. Qed.
+
+(* ---------- the names of every reachable state = the current declarations
+   (a re-added name replaces the earlier one and moves to the end) *)
+Lemma names_remove n s s' : remove n s = Some s' -> names s' = remove_first n (names s).
+Proof.
+  unfold remove. destruct (mem_text n (names s)); [|discriminate].
+  destruct (aget n (name2after s)), (aget n (name2before s)); intros H; injection H as <-; reflexivity.
+Qed.
+
+Lemma remove_Some n s : mem_text n (names s) = true -> exists s', remove n s = Some s'.
+Proof.
+  intros E. unfold remove. rewrite E.
+  destruct (aget n (name2after s)), (aget n (name2before s)); eexists; reflexivity.
+Qed.
+
+Lemma names_add n v a b s : names (add n v a b s) = remove_first n (names s) ++ [n].
+Proof.
+  unfold add. destruct (mem_text n (names s)) eqn:E.
+  - destruct (remove_Some n s E) as (s' & Hs'). rewrite Hs'.
+    rewrite <- (names_remove n s s' Hs').
+    destruct (match a, b with HNone, HNone => _ | _, _ => _ end) as [a' b']. reflexivity.
+  - rewrite remove_first_notin by (apply mem_text_false; exact E).
+    destruct (match a, b with HNone, HNone => _ | _, _ => _ end) as [a' b']. reflexivity.
+Qed.
+
+Lemma names_apply_op s o : names (fst (apply_op s o)) =
+  match o with OAdd n _ _ _ => remove_first n (names s) ++ [n] | ORemove n => remove_first n (names s) end.
+Proof.
+  destruct o as [n v a b|n]; simpl; [apply names_add|].
+  destruct (remove n s) as [s'|] eqn:Er; simpl; [apply (names_remove n s s' Er)|].
+  symmetry. apply remove_first_notin. apply mem_text_false.
+  destruct (mem_text n (names s)) eqn:E; [|reflexivity].
+  destruct (remove_Some n s E) as (s' & Hs'). congruence.
+Qed.
+
+Lemma dnames_spec_remove n ds : NoDup (dnames ds) -> dnames (spec_remove n ds) = remove_first n (dnames ds).
+Proof.
+  unfold spec_remove, dnames. induction ds as [|d ds IH]; simpl; [reflexivity|].
+  intros Hnd. inversion Hnd as [|? ? Hnot Hnd']; subst.
+  destruct (text_eqb_spec n (dname d)) as [->|Hne]; simpl.
+  - rewrite IH by exact Hnd'. apply remove_first_notin. exact Hnot.
+  - rewrite IH by exact Hnd'. reflexivity.
+Qed.
+
+Lemma dnames_spec_op c ds o : NoDup (dnames ds) -> dnames (spec_op c ds o) =
+  match o with OAdd n _ _ _ => remove_first n (dnames ds) ++ [n] | ORemove n => remove_first n (dnames ds) end.
+Proof.
+  intros Hnd. destruct o as [n v a b|n]; simpl; [|apply dnames_spec_remove; exact Hnd].
+  unfold spec_add. destruct c as [[[db da] f] l].
+  destruct a, b; unfold dnames; rewrite map_app; simpl; fold (dnames (spec_remove n ds));
+    rewrite dnames_spec_remove by exact Hnd; reflexivity.
+Qed.
+
+Lemma NoDup_remove_snoc n l : NoDup l -> NoDup (remove_first n l ++ [n]).
+Proof.
+  intros Hnd. apply NoDup_snoc; [apply NoDup_remove_first; exact Hnd|].
+  intros H. apply In_remove_first_nodup in H; [|exact Hnd]. destruct H as (_ & H). congruence.
+Qed.
+
+Lemma names_track c ops : forall s ds,
+  names s = dnames ds -> NoDup (names s) ->
+  names (final_state s ops) = dnames (fold_left (spec_op c) ops ds) /\ NoDup (names (final_state s ops)).
+Proof.
+  unfold final_state. induction ops as [|o ops IH]; intros s ds Hn Hnd; simpl; [auto|].
+  apply IH.
+  - rewrite names_apply_op, dnames_spec_op by (rewrite <- Hn; exact Hnd). rewrite Hn. reflexivity.
+  - rewrite names_apply_op. destruct o; [apply NoDup_remove_snoc|apply NoDup_remove_first]; exact Hnd.
+Qed.
+
+Lemma names_of_ops c ops :
+  names (final_state (new_sorter c) ops) = dnames (decls_of c ops) /\
+  NoDup (names (final_state (new_sorter c) ops)).
+Proof.
+  apply names_track; destruct c as [[[db da] f] l]; simpl; [reflexivity|constructor].
+Qed.
+
+(* the declared names of an operation sequence, described directly: last add wins *)
+Lemma sorted_perm_ops c ops l :
+  sorted (final_state (new_sorter c) ops) = Sorted l ->
+  Permutation (map fst l) (dnames (decls_of c ops)) /\ NoDup (map fst l).
+Proof.
+  intros E. destruct (names_of_ops c ops) as (Hn & Hnd).
+  destruct (sorted_perm_state _ _ E Hnd) as (Hp & _). rewrite Hn in Hp. split; [exact Hp|].
+  eapply Permutation_NoDup; [apply Permutation_sym; exact Hp|]. rewrite <- Hn. exact Hnd.
+Qed.
 
 Lemma sorted_deterministic c ops1 ops2 : ops1 = ops2 -> run_ops (new_sorter c) ops1 = run_ops (new_sorter c) ops2.
 Proof. intros ->. reflexivity. Qed.
